@@ -1360,6 +1360,44 @@ func runC02Src(c *Ctx) {
 							setBad(d, what)
 						default:
 							walk(r, d+1)
+							// into the module function that receives the value: what its parameter decides there
+							for _, g := range p.calleesOf(r) {
+								if g.Blocks == nil || !inModule(g) {
+									continue
+								}
+								args := r.Call.Args
+								if r.Call.IsInvoke() {
+									args = append([]ssa.Value{r.Call.Value}, args...)
+								}
+								for i, a := range args {
+									if a == v && i < len(g.Params) {
+										walk(g.Params[i], d+1)
+									}
+								}
+							}
+						}
+					case *ssa.Return:
+						// out of the function: the result at every call site
+						g := r.Parent()
+						for i, res := range r.Results {
+							if res != v {
+								continue
+							}
+							for _, e := range p.callersOf(g) {
+								site, ok := e.Site.(*ssa.Call)
+								if !ok {
+									continue
+								}
+								if len(r.Results) == 1 {
+									walk(site, d+1)
+									continue
+								}
+								for _, r2 := range *site.Referrers() {
+									if ex, ok := r2.(*ssa.Extract); ok && ex.Index == i {
+										walk(ex, d+1)
+									}
+								}
+							}
 						}
 					case *ssa.Store:
 						if al, ok := r.Addr.(*ssa.Alloc); ok {
